@@ -12,21 +12,21 @@ CHECKS = {
 }
 CHECKS.update({
  "C03": ("exploration", "bounded-exhaustive enumeration of every below-threshold signer subset on the real code + exhaustive tiny-field secrecy count",
-         "Every subset of size 1..t-1 of every (n,t) up to the bound, with honest and lied thresholds in key packages and public key package, through sign / aggregate (3 modes) / reconstruct / hand-assembled signatures, the same drive through the re-randomized entry points (sign_with_randomizer_seed, deprecated sign, aggregate, aggregate_custom) and on key material after dealer refresh / distributed refresh / repair among exactly t and t+1 holders; exact Shamir secrecy (every secret equally often for every (t-1)-subset of shares) over ALL polynomials on GF(5), GF(7), GF(11).",
+         "Every subset of size 1..t-1 of every (n,t) up to the bound, with honest and lied thresholds in key packages and public key package, through sign / aggregate (3 modes) / reconstruct / hand-assembled signatures, the same drive through the re-randomized entry points (sign_with_randomizer_seed, deprecated sign, aggregate, aggregate_custom) and on key material after dealer refresh / distributed refresh / repair among exactly t and t+1 holders (and after an attempted threshold-lowering refresh with a legacy package); exact Shamir secrecy (every secret equally often for every (t-1)-subset of shares) over ALL polynomials on GF(5), GF(7), GF(11).",
          "Unforgeability against arbitrary algorithms is a cryptographic assumption and is not decided; what is decided is the refusals, the honest-algorithm attack surface and exact secrecy on the tiny field.", "DESIGN 4 C03"),
  "C04": ("fault_enumeration", "exhaustive fault enumeration (every cheater subset x wrong-share kind x detection mode) with an exact reference predicate; every error vector on the tiny field",
          "Every non-empty cheater subset of every signer set, seven wrong-share kinds incl. cross-session and cancelling ones, three detection modes plus stand-alone share verification, Taproot in all four (key parity, R parity) branches; the same oracle on key material after dealer refresh (unsorted list) / distributed refresh / repair, with transported and legacy public key packages, through the re-randomized aggregate and through the Taproot tweak wrappers with both key parities; oracle is exact (e_i computed by the harness, numeric identifier order computed independently). On GF(7)/GF(11)/GF(13) EVERY error vector is run.",
          "Wrong-share values on the real curves are structured kinds, not all values; all values only on the tiny field.", "DESIGN 4 C04"),
  "C06": ("exploration", "bounded-exhaustive shape enumeration + exhaustive single-coordinate tamper enumeration; exhaustive tiny-field polynomials",
-         "Every (n,t) up to the bound x 5 identifier kinds x generate/split: every share checked by independent commitment evaluation and Lagrange interpolation, EVERY t-subset reconstructs, every (t-1)-subset does not, EVERY single-coordinate tampering (value, identifier, each commitment entry, truncation, extension) of every share is rejected; u16 boundary and duplicate/mis-sized identifier lists refused; custom identifier lists whose members differ in ONE bit, for every bit position; n=65535 with default identifiers; all polynomials on GF(5)/GF(7)/GF(11).",
+         "Every (n,t) up to the bound x 5 identifier kinds x generate/split: every share checked by independent commitment evaluation and Lagrange interpolation, EVERY t-subset reconstructs, every (t-1)-subset does not, EVERY single-coordinate tampering (value, identifier, each commitment entry, truncation, extension) of every share is rejected; u16 boundary and duplicate/mis-sized identifier lists (incl. n + 65536 entries) refused; custom identifier lists whose members differ in ONE bit, for every bit position; n=65535 with default identifiers; all polynomials on GF(5)/GF(7)/GF(11).",
          "Coefficient values on the real curves are seeded streams; all values only on the tiny field.", "DESIGN 4 C06"),
  "C11": ("exploration", "bounded-exhaustive enumeration of (repaired identifier, helper set) on the real code; every blinding vector on the tiny field",
-         "Every repaired identifier (each existing participant and three new ones) x every helper set t<=|H| of every (n,t) up to the bound through the three repair parts of each crate's wrappers; delta sums and the repaired share compared with independent Lagrange interpolation; the public key package reaches part 3 through its binary and JSON encodings; hundreds of helpers incl. a (260,256) group; the refusals; every blinding vector on GF(7)/GF(11).",
+         "Every repaired identifier (each existing participant and three new ones) x every helper set t<=|H| of every (n,t) up to the bound through the three repair parts of each crate's wrappers; delta sums and the repaired share compared with independent Lagrange interpolation; the public key package reaches part 3 through its binary and JSON encodings; hundreds of helpers incl. a (260,256) group; repair after a refresh (refreshed package, legacy package upgraded by the distributed refresh, stale package); the refusals; every blinding vector on GF(7)/GF(11).",
          "Blinding values on the real curves are seeded streams.", "DESIGN 4 C11"),
 })
 CHECKS.update({
  "C10": ("model_checking", "explicit exploration of the refresh operation tree on the real code (every remaining set, both procedures, depth-bounded, no state merging) with invariants on every node",
-         "Nodes are groups holding real key material, edges are the real dealer and distributed refresh procedures for EVERY remaining set R (|R|>=t); every path to the depth bound is executed. On every node: key unchanged, every package re-linked (verifying share = G*share = public entry), every t-subset signs (independent verifier), every strict old/new mix and every set with a removed member fails, and the threshold-change / unknown-identifier / non-zero-constant refusals refuse in both procedures (incl. each single member deviating as an attacker, and a refreshing polynomial of 65536 + t coefficients).",
+         "Nodes are groups holding real key material, edges are the real dealer and distributed refresh procedures for EVERY remaining set R (|R|>=t); every path to the depth bound is executed. On every node: key unchanged, every package re-linked (verifying share = G*share = public entry), every t-subset signs (independent verifier), every strict old/new mix and every set with a removed member fails, and the threshold-change / unknown-identifier / non-zero-constant refusals refuse in both procedures (incl. each single member deviating as an attacker, participants holding a legacy public key package, and a refreshing polynomial of 65536 + t coefficients).",
          "Refresh polynomials are seeded streams; a full threshold of OLD shares still signs (documented, not asserted to fail).", "DESIGN 4 C10"),
 })
 CHECKS.update({
@@ -71,7 +71,7 @@ CHECKS.update({
          "Every signer subset of every (n,t) up to the bound x randomizer sources (seeded, constant seeds, explicit 0/1/q-1): regenerated = coordinator parameters, signature valid under the randomized and (randomizer != 0) invalid under the original key, randomizer = independently computed hash(seed || independently encoded commitments); every single-byte seed change and every commitment replacement / set change changes the randomizer; a participant with tampered seed or package is exactly the culprit; every cheater subset x 4 kinds x 3 modes and every below-threshold subset through frost-rerandomized's aggregate; every session repeated with the legacy (threshold-less) public key package, packages after binary / JSON transport, cloned parameters and parameters rebuilt from the transported randomizer - identical signature required.",
          "Seeds are seeded streams plus constants.", "DESIGN 4 C17"),
  "C18": ("exploration", "branch-forcing enumeration: all 8 (internal, output, R) Y-parity combinations forced by seed search for every shape / subset / script-tree root, judged by libsecp256k1",
-         "(n,t) x dealer/DKG x every signer subset x 6 root variants x messages, each in ALL parity combinations (reported per combination): libsecp256k1 verify_schnorr under the output key that libsecp256k1 add_tweak derives with an independently computed TapTweak hash; rejection under the untweaked key; absent root == empty root; honest shares verify; the C04 cheater menu (every cheater subset) in every parity combination; DKG key-path-only tweak; single-signer signing for both key parities.",
+         "(n,t) x dealer/DKG x every signer subset x 6 root variants x messages, each in ALL parity combinations (reported per combination): libsecp256k1 verify_schnorr under the output key that libsecp256k1 add_tweak derives with an independently computed TapTweak hash; rejection under the untweaked key; absent root == empty root; honest shares verify; the C04 cheater menu (every cheater subset) in every parity combination; DKG key-path-only tweak; single-signer signing for both key parities; key material after dealer refresh / distributed refresh / repair (crate wrappers): group key unchanged and sessions still valid under the output key of the original internal key.",
          "libsecp256k1 is the trusted BIP-340/341 implementation.", "DESIGN 4 C18"),
 })
 CHECKS.update({
@@ -79,12 +79,12 @@ CHECKS.update({
          "Sizes 0..N x 3 key layouts (distinct, round-robin, adjacent same key): valid batch, one invalid item at every position x 6 kinds, every pair of positions with complementary / swapped errors; accept <=> every item verifies (library + independent verifier), verify_single <=> verify (Taproot: also signatures held in memory with odd-Y R); boundary blinder values and out-of-range source answers injected through the scripted source do not change the verdict. On GF(7)/GF(11)/GF(13) every blinder vector is fed through the scripted source: valid batches accepted by all, invalid ones (every error pattern over {0,1,-1,2}^k) by at most q^(k-1).",
          "The 2^-128 bound on real curves is inferred (generic code + fresh full-width draw per item, C16); exact only on the tiny field.", "DESIGN 4 C19"),
  "C20": ("exploration", "enumeration of secret-bearing types x shapes x operations with an allocator wrapper reading the freed storage, ManuallyDrop controls",
-         "10 secret-bearing types (incl. the refresh form of the round-one secret package, t = n shapes, packages built with thresholds 0 / 1 / 65535 or commitments shorter than the coefficients, and packages decoded from bytes / JSON) x suites x seeds: on drop no freed block contains the in-memory image of any secret scalar (control without destructor must show it, and the box must have been observed); zeroize() leaves every secret getter zero and nothing secret re-encodable; Debug / alternate Debug contain no rendering of any secret scalar.",
+         "10 secret-bearing types (incl. the refresh form of the round-one secret package, t = n shapes, packages built with thresholds 0 / 1 / 65535 or commitments shorter than the coefficients, and packages decoded from bytes / JSON) x suites x seeds: on drop no freed block contains the in-memory image of any secret scalar (control without destructor must show it, and the box must have been observed); zeroize() leaves every secret getter zero and nothing secret re-encodable; the package's own coefficient block (identified by address) shows no coefficient when part two of the DKG / refresh consumes the package; Debug / alternate Debug contain no rendering of any secret scalar.",
          "Stack / register copies and library-internal temporaries are not 'the storage it occupied' and are only recorded.", "DESIGN 4 C20"),
 })
 CHECKS.update({
  "C02": ("exploration", "bounded-exhaustive shape enumeration with byte-for-byte differential comparison of every intermediate against an independent from-scratch reference pinned to the RFC 9591 vectors",
-         "Suites x (n,t) x 5 identifier kinds x dealer/DKG x every signer subset x the message alphabet, nonces from commit() and from the k-th pair of preprocess batches: a transcript of inputs (shares, the 64 random bytes per signer, message) and every intermediate (nonces, commitments, encoded commitment list and order, binding-factor inputs, binding factors, group commitment, challenge, interpolation coefficients, shares, signature) is recomputed by /verif/ref/frostref.py (big-integer curves + hashlib; Taproot flow derived from BIP-340/341) which in the same run reproduces every value of the frozen RFC 9591 appendix vectors; all 65535 u16 identifier encodings and their order; single-signer signatures verified by the reference and reference signatures verified by the library.",
+         "Suites x (n,t) x 5 identifier kinds x dealer/DKG x every signer subset x the message alphabet, nonces from commit() and from the k-th pair of preprocess batches: a transcript of inputs (shares, the 64 random bytes per signer, message) and every intermediate (nonces, commitments, encoded commitment list and order, binding-factor inputs, binding factors, group commitment, challenge, interpolation coefficients, shares, signature) is recomputed by /verif/ref/frostref.py (big-integer curves + hashlib; Taproot flow derived from BIP-340/341) which in the same run reproduces every value of the frozen RFC 9591 appendix vectors; all 65535 u16 identifier encodings and their order; single-signer signatures verified by the reference and reference signatures verified by the library; re-randomized signer entry points (seed-taking and deprecated) return exactly the plain share of the independently randomized key material; Taproot tweak sessions (4 root kinds x both key parities) verified by the reference's BIP-341 / BIP-340.",
          "The Python reference is trusted after its pin; scalars are seeded streams (value-genericity, DESIGN 2).", "DESIGN 4 C02"),
 })
 NOT_APPLICABLE = {}
